@@ -10,7 +10,7 @@
 
 typedef struct { int ntrace; vx_pt trace[VX_MAXCH]; uint64_t state[VX_MAXCH]; int status, cret, sret; ep_t c, s; int sec_equal, diverged; char fail[160]; int cke_len; } exec_out;
 static exec_out *XO; static int ENVX = 1;
-typedef struct { int proto, mutual, depth; app_dir c2s, s2c; int do_app, interleave; unsigned seed; } cfg_t;
+typedef struct { int proto, mutual, depth; app_dir c2s, s2c; int do_app, interleave; unsigned seed; int via_files; } cfg_t;
 static side_creds SRV[3][3], CLI[3][3];   /* [proto][depth-1] */
 
 static uint64_t vn_state_hash(void) { uint64_t a[9] = { (uint64_t)vn_me, vn_bytes_recv[0], vn_bytes_recv[1], vn_bytes_sent[0], vn_bytes_sent[1], vn_to[0].w - vn_to[0].r, vn_to[1].w - vn_to[1].r, vn_stagelen[0], vn_stagelen[1] }; return vh_hash(a, sizeof a, 0x51a7e); }
@@ -18,7 +18,7 @@ static uint64_t vn_state_hash(void) { uint64_t a[9] = { (uint64_t)vn_me, vn_byte
 static int child_run(const cfg_t *cf) {
 	ep_t *c = &XO->c, *s = &XO->s; memset(c, 0, sizeof *c); memset(s, 0, sizeof *s);
 	c->proto = s->proto = cf->proto; c->is_client = 1; c->mutual = s->mutual = cf->mutual; c->own = &CLI[cf->proto][cf->depth - 1]; s->own = &SRV[cf->proto][cf->depth - 1]; c->trust = &SRV[cf->proto][cf->depth - 1]; s->trust = cf->mutual ? &CLI[cf->proto][cf->depth - 1] : NULL;
-	c->out = cf->c2s; s->in = cf->c2s; s->out = cf->s2c; c->in = cf->s2c; c->do_app = s->do_app = cf->do_app; s->interleave = cf->interleave; c->do_close = s->do_close = 1; c->entropy_key = 0xC11E17 + 7919u * cf->seed; s->entropy_key = 0x5E12BE12 + 104729u * cf->seed; c->entropy_fail_at = s->entropy_fail_at = -1;
+	c->out = cf->c2s; s->in = cf->c2s; s->out = cf->s2c; c->in = cf->s2c; c->do_app = s->do_app = cf->do_app; s->interleave = cf->interleave; c->do_close = s->do_close = 1; c->via_files = s->via_files = cf->via_files; c->entropy_key = 0xC11E17 + 7919u * cf->seed; s->entropy_key = 0x5E12BE12 + 104729u * cf->seed; c->entropy_fail_at = s->entropy_fail_at = -1;
 	vx_explore_env = ENVX; XO->status = vnet_run2(ep_task, c, ep_task, s, &XO->cret, &XO->sret);
 	XO->ntrace = vx_ntrace < VX_MAXCH ? vx_ntrace : VX_MAXCH; memcpy(XO->trace, vx_trace, sizeof(vx_pt) * XO->ntrace); XO->diverged = vx_diverged;
 	XO->cke_len = -1; for (int i = 0; i < vn_nlog; i++) if (vn_log[i].dir == 1 && vn_log[i].hdr[0] == 22 && vn_log[i].len > 9 && vn_log[i].copy[5] == 16) { XO->cke_len = (int)vn_log[i].len - 9; break; } /* body length of the (plaintext) ClientKeyExchange */
@@ -75,6 +75,10 @@ static void body(void) {
 	/* C: interleaved use — the server reads PART of a record, writes its own data, then reads the rest (read buffers smaller than the record) */
 	for (int p = 0; p < 3; p++) { char bn[64]; snprintf(bn, sizeof bn, "interleaved-%s", PNAME[p]); if (!vh_block_begin(bn)) continue; static const size_t IW[] = { 17, 1000, 16384 }, IR[] = { 1, 7, 100, 999 }, IX[] = { 1, 500, 16384, 20000 };
 		for (int wi = 0; wi < 3; wi++) for (int ri = 0; ri < 4; ri++) for (int xi = 0; xi < 4; xi++) { if (IR[ri] >= IW[wi]) continue; cfg_t cf = { p, 0, 1, { { IW[wi] }, 1, IR[ri] }, { { IX[xi] }, 1, 4096 }, 1, 1 }; if (!vh_next()) continue; ENVX = 0; run_exec(&cf, NULL, 0); NEXEC++; judge(&cf, NULL, 0, "interleaved"); vh_sample("{\"block\":\"interleaved\",\"proto\":\"%s\",\"c2s_write\":%zu,\"server_readbuf\":%zu,\"s2c_write\":%zu}", PNAME[p], IW[wi], IR[ri], IX[xi]); } }
+	/* E: endpoints configured the way an application does it: credentials and trust anchors written to PEM files (keys password-protected) and loaded through
+	   tls_ctx_init / tls_ctx_set_cipher_suites / tls_ctx_set_ca_certificates / tls_ctx_set_certificate_and_key / tls_ctx_set_tlcp_server_certificate_and_keys */
+	for (int p = 0; p < 3; p++) { char bn[64]; snprintf(bn, sizeof bn, "context-interface-%s", PNAME[p]); if (!vh_block_begin(bn)) continue;
+		for (int m = 0; m < 2; m++) for (int d = 1; d <= 3; d++) { cfg_t cf = { p, m, d, { { 24 }, 1, 64 }, { { 24 }, 1, 64 }, 1, 0, 0, 1 }; if (!vh_next()) continue; ENVX = 0; run_exec(&cf, NULL, 0); NEXEC++; judge(&cf, NULL, 0, "context-interface"); vh_sample("{\"block\":\"context-interface\",\"proto\":\"%s\",\"mutual\":%d,\"chain_depth\":%d}", PNAME[p], m, d); } }
 	/* D: other key material - the honest handshake under further entropy scripts: key-exchange values of unusual shape (an SM2 ciphertext or point whose
 	   coordinate has leading zero octets encodes shorter) appear only for some of them; the shortest and longest ClientKeyExchange seen are counted */
 	for (int p = 0; p < 3; p++) for (int m = 0; m < 2; m++) { char bn[64]; snprintf(bn, sizeof bn, "keys-%s-%s", PNAME[p], m ? "mutual" : "serverauth"); if (!vh_block_begin(bn)) continue; int N = p == 0 ? (vh_thorough ? 16384 : 4096) : (vh_thorough ? 1024 : 256), shortc = 0;
